@@ -537,3 +537,40 @@ def protection_descriptor_edits(blob: bytes) -> t.Iterator[bytes]:
             yield dataclasses.replace(b, protection_descriptor=_RawDescriptor(raw)).pack()
         except Exception:  # noqa: BLE001
             continue
+
+
+def structural_mutations(blob: bytes) -> t.Iterator[bytes]:
+    """For EVERY element (primitive or constructed): the element removed, duplicated, swapped with its next sibling, emptied,
+    replaced by NULL, its tag's constructed bit / class toggled - all with the lengths of every enclosing element re-encoded
+    consistently. Reaches the states 'optional field absent', 'field twice', 'fields out of order', 'wrong type' that no
+    octet-level change of a valid blob produces."""
+    tree = tlv_tree(blob)
+    for idx, (off, hl, cl, parent) in enumerate(tree):
+        whole = blob[off : off + hl + cl]
+        sibs = [j for j, t_ in enumerate(tree) if t_[3] == parent and j > idx]
+        nxt = None
+        if sibs:
+            noff, nhl, ncl, _ = tree[sibs[0]]
+            nxt = blob[noff : noff + nhl + ncl]
+        variants = [b"", whole + whole, b"\x05\x00", bytes([whole[0] ^ 0x20]) + whole[1:], bytes([whole[0] ^ 0x80]) + whole[1:],
+                    whole[:1] + b"\x00"]
+        if nxt is not None:
+            variants.append(None)  # swap marker
+        for v in variants:
+            if parent < 0:
+                if v is None:
+                    yield blob[:off] + nxt + whole + blob[off + hl + cl + len(nxt) :]
+                else:
+                    yield blob[:off] + v + blob[off + hl + cl :]
+                continue
+            poff, phl, pcl, _ = tree[parent]
+            pcontent = blob[poff + phl : poff + phl + pcl]
+            rel = off - (poff + phl)
+            if v is None:
+                newc = pcontent[:rel] + nxt + whole + pcontent[rel + len(whole) + len(nxt) :]
+            else:
+                newc = pcontent[:rel] + v + pcontent[rel + len(whole) :]
+            try:
+                yield replace_content(blob, tree, parent, newc)
+            except Exception:  # noqa: BLE001
+                continue
